@@ -78,18 +78,7 @@ pub fn small_tree(i: u64) -> Option<Expr> {
 
 fn random_tree(rng: &mut Rng, depth: usize) -> Expr {
     if depth == 0 || rng.chance(1, 4) {
-        let v = match rng.below(10) {
-            0 => "0".to_string(),
-            1 => "1".to_string(),
-            2 => "2".to_string(),
-            3 => "0.5".to_string(),
-            4 => "1,000.50".to_string(),
-            5 => "12".to_string(),
-            6 => "0.25".to_string(),
-            7 => "7".to_string(),
-            8 => "100".to_string(),
-            _ => format!("{}.{}", rng.below(50), rng.below(100)),
-        };
+        let v = rand_value(rng);
         let c = *rng.pick(&COMS);
         // bare numbers twice as likely inside products
         let c = if rng.chance(1, 4) { "" } else { c };
@@ -105,7 +94,10 @@ fn random_tree(rng: &mut Rng, depth: usize) -> Expr {
 }
 
 fn rand_value(rng: &mut Rng) -> String {
-    match rng.below(10) {
+    match rng.below(12) {
+        // a literal that carries its own minus sign: after a unary minus it reads `--3`
+        10 => "-3".to_string(),
+        11 => "-0.25".to_string(),
         0 => "0".to_string(),
         1 => "1".to_string(),
         2 => "2".to_string(),
